@@ -343,6 +343,9 @@ class RespRun:
                                         'desc': dict(self.sc['services'][k])})
                 self.infos[k] = None
                 self.model.unregister(self.sc['services'][k]['name'])
+                if ev.get('fresh_object'):
+                    # the application unregisters with a ServiceInfo it builds anew from the same data, not with the registered object
+                    info = sim.make_service_info({kk: vv for kk, vv in self.sc['services'][k].items() if kk != 'late'})
                 task = await host.azc.async_unregister_service(info)
                 if ev.get('await', True):
                     await task
